@@ -880,7 +880,7 @@ MANIFEST_TEXT = {
             "note": NOTE, "technique": "Lean 4 proof (replace_raw characterisation, rename relation, compressor invariant reused) + model/implementation correspondence + reference decoder oracle"},
     "C08": {"text": "Lean theorems: the invariant Consistent (plain object: header, question, three lists of canonical record pieces with the section starts and counts that follow from them; cleared may-contain-pointers flag; question cache empty or right; EDNS summary = the one the additional pieces determine) implies that the bytes are accepted by the parser and that a fresh parse reports exactly the section starts and the EDNS summary (position and count of options, extended rcode, version, flags, payload size) the object holds; counts = numbers of records, absent start iff empty section, bytes pointer-free, cached question = uncached question. The invariant holds after decompression/recompute of any accepted packet and is preserved by insert (3 sections), delete (including the OPT record), set_rr_ttl, set_rr_ip, set_raw_name (after which the cursor still designates the record and next yields the one that followed) and the header setters; a successful object-level rename leaves exactly the view of a fresh parse. Sequences: run_total / run_inv over the script semantics of Theorems/C08Seq.lean: no allowed script panics and every one ends consistent (any finite list of open/next/close/delete/set-TTL/set-address/set-name/insert/header-setter/recompute operations satisfying the documented preconditions); by-design findings KF1-KF5 excluded by the preconditions. State-machine model (packet object + one cursor) of every mutator; after every operation of every script the real object's bytes, public fields, cache and cursor equal the model's, and the oracle re-derives the view from the bytes alone.",
             "note": NOTE, "technique": "Lean 4 proof (representation invariant incl. EDNS summary as a function of the pieces, preserved by every mutator) + step-wise model/implementation correspondence on operation scripts + reference decoder oracle"},
-    "C09": {"text": 'Lean theorems on the piece-list representation of pointer-free objects: insert appends exactly the given record and raises only that count; delete removes exactly the record under the cursor and lowers only that count; set_rr_ttl / set_rr_ip replace exactly the TTL / address bytes of that record; set_raw_name replaces exactly its owner name for growing, shrinking and equal lengths; header setters touch bytes 0-3 only; everything else (other records and their order, question, other header fields, EDNS summary fields) is equal; on a still-flagged (possibly compressed) object the first set_raw_name/delete first turns it into the plain object of the canonical pieces with the cursor carried to the same record. Exclusions are the by-design findings KF1-KF5. Same scripts as C08: after every operation the decoded message must be the message before with exactly the specified change (abstract list operation on the decoded message).',
+    "C09": {"text": 'Lean theorems on the piece-list representation of pointer-free objects: insert appends exactly the given record and raises only that count; delete removes exactly the record under the cursor and lowers only that count; set_rr_ttl / set_rr_ip replace exactly the TTL / address bytes of that record; set_raw_name replaces exactly its owner name for growing, shrinking and equal lengths; header setters touch bytes 0-3 only; everything else (other records and their order, question, other header fields, EDNS summary fields) is equal; on a still-flagged (possibly compressed) object the first set_raw_name/delete first turns it into the plain object of the canonical pieces with the cursor carried to the same record. Exclusions are the by-design findings KF1-KF5. Same scripts as C08: after every operation the decoded message must be the message before with exactly the specified change (abstract list operation on the decoded message); operations that have no ground to be refused must succeed (a name that is not longer than the one it replaces, on packets of any size; a valid record that fits, into sections of 253-300 records).',
             "note": NOTE, "technique": 'Lean 4 proof (piece shape lemmas, replace/delete/insert on the piece lists, resize-then-write byte lemma, decompress-first step) + step-wise correspondence + abstract-message oracle'},
     "C10": {"text": 'Lean theorems: insertion never yields more than 8192 bytes for any object and reports PacketTooLarge instead; a failing insert_rr on a pointer-free object (too large, second question, full section), delete/set_raw_name through a tombstoned cursor, an invalid or over-long name, set_rr_ip with the wrong family, and an overflowing rename all return the object as it was. Scripts biased to failing arguments and packets around/beyond 8192 and 65535 bytes: every failed call must leave the decoded message unchanged and the object consistent. Not proved (correspondence only): malformed text at the object API, failures after the decompress-first step.',
             "note": NOTE, "technique": 'Lean 4 proof (order of check and modify in the model of each mutator) + step-wise correspondence + abstract-message oracle'},
@@ -892,7 +892,7 @@ MANIFEST_TEXT = {
             "note": NOTE + " chomp1 combinator semantics read from the vendored source; Ipv6Addr::from_str modelled.", "technique": "Lean 4 proof (token-level iff lemmas for every parser of the recogniser, grammar relation, piece/assembly lemmas for insertion) + model/implementation correspondence + reference synthesiser oracle"},
     "C14": {"text": "Lean theorems for all byte strings and zones: the index-based loop of copy_raw_name_from_str is a left-to-right scan; it accepts exactly dot-separated labels of 1..62 dot-free bytes <= 128 (optional final dot; '.' and '' give the root) whose result fits 253 bytes (so every LDH/underscore name within the limits), returns the length-prefixed encoding of exactly those labels followed by 0 or the zone, rejects an empty label, a leading dot, a dot-free run of 63+, a text or result over 253; the result is a valid pointer-free name (labels 1..63, total <= 255) and the name accessor's text for it is the input without its final dot. Real conversion compared with the model exhaustively over a 7-symbol alphabet up to length 4 (quick) / 6 (thorough) with and without zone, boundary lengths; every accepted name is given to a record and read back.",
             "note": NOTE, "technique": "Lean 4 proof (loop = scan refinement, scan soundness/completeness by induction) + exhaustive small-alphabet correspondence + label oracle"},
-    "C15": {"text": "Proved on data regenerated from c_abi.rs and c_hook.h on every run: the table's order, count (30) and ABI-class signatures agree with the header and the initialiser follows declaration order. Facade behaviour: hook scripts run through the Rust table and through a C driver compiled against the shipped header (-Wall -Werror), with canaries around caller buffers; transcripts must equal each other and the model's (which is the native semantics). Proved on the model of the wrappers: on accepted packets a record's name fits the 256-byte buffer with its NUL (the length assertion cannot fire), an address copy-out is exactly 4 or 16 bytes, the raw-packet copy-out never exceeds the stated capacity.",
+    "C15": {"text": "Proved on data regenerated from c_abi.rs and c_hook.h on every run: the table's order, count (30) and ABI-class signatures agree with the header and the initialiser follows declaration order. Facade behaviour: hook scripts run through the Rust table and through a C driver compiled against the shipped header (-Wall -Werror), with canaries around caller buffers and announced capacities above what is needed; transcripts must equal each other and the model's (which is the native semantics); oracle rules for the table's own obligations (address length written back, nothing written past it, a record text the grammar accepts is inserted whatever its length, a well-formed raw name / a fully-qualified host name is installed whatever the zone slice holds). Proved on the model of the wrappers: on accepted packets a record's name fits the 256-byte buffer with its NUL (the length assertion cannot fire), an address copy-out is exactly 4 or 16 bytes, the raw-packet copy-out never exceeds the stated capacity.",
             "note": NOTE + " Memory safety of the unsafe blocks is observed (canaries), not verified.", "technique": "Lean decide on translated tables + three-way correspondence (C driver / Rust table / model)"},
     "C16": {"text": "Per-thread slot model with the theorem that a read returns the thread's own last failure for every history; real threads stepped through all 2x3 interleavings x step kinds and sampled 3-4 thread schedules.",
             "note": NOTE + " thread_local! semantics assumed, probed by the schedules.", "technique": "Lean proof by induction on histories + exhaustive schedule correspondence"},
